@@ -317,7 +317,7 @@ func c13Base(cx *c13Cx, v c13BaseVariant) map[string]any {
 	m := c13Defaults()
 	set := func(k string, val any) {
 		if _, ok := m[k]; !ok && k != "rtspUDPReadBufferSize" {
-			panic("c13: base sets unknown global field " + k)
+			panic("VERIF-INCONCLUSIVE: c13: base sets unknown global field " + k)
 		}
 		m[k] = val
 	}
@@ -557,7 +557,7 @@ func c13Alt(cx *c13Cx, fi c13FieldInfo, old map[string]any, i int, changing func
 			return c13PickDifferent(cur, i, "7s", "15s")
 		}
 	}
-	panic(fmt.Sprintf("c13: no alternative values known for global field %q (type %v): extend c13Alt or c13ExcludedFields", name, fi.Type))
+	panic(fmt.Sprintf("VERIF-INCONCLUSIVE: c13: no alternative values known for global field %q (type %v): extend c13Alt or c13ExcludedFields", name, fi.Type))
 }
 
 // c13Couple fixes up coupled fields after the individual alternatives were installed.
